@@ -95,6 +95,8 @@ def proj_state(X) -> dict:
 def proj_value(r) -> dict:
     import bind
     ttb = bind.ttb
+    if isinstance(r, tuple) and r and r[0] == "answered":
+        return {"kind": "scalar", "val": 0}
     if isinstance(r, np.ndarray):
         if r.ndim == 0:
             return {"kind": "scalar", "val": bind.num(r.item())}
@@ -170,6 +172,19 @@ def do_write(X, sparse: bool, ev: dict, k: int):
 
 def do_read(X, sparse: bool, ev: dict):
     op, a = ev["op"], ev["args"]
+    if op == "linear_beyond":
+        # one past the last position: reading it, and (dense) writing it on a copy, must both be refused
+        n = int(a["idx"][0])
+        try:
+            v = X[n]
+            return ("answered", v)
+        except Exception:
+            pass
+        if not sparse:
+            Y = X.copy()
+            Y[n] = 9.0          # raises on the unchanged tree; a silent write is an answer
+            return ("answered", 9.0)
+        raise IndexError("refused")
     if op == "get_subs":
         return X[np.array(a["subs"], dtype=int)]
     if op == "get_linear":
@@ -250,6 +265,13 @@ def run(init: dict, evs: List[dict], reads: List[dict], expected: bool):
                 except Exception as e:
                     rep[who] = {"st": "raised", "msg": f"{type(e).__name__}: {e}"[:160]}
             cur["ev"].append({"op": ev["op"], "args": ev["args"], "ret": rep})
+            if ev["op"] == "linear_beyond":
+                bad = [w for w in ("dense", "sparse") if rep[w]["st"] == "ok"]
+                if bad:
+                    divs.append({"site": ("tensor" if bad[0] == "dense" else "sptensor") + ".__getitem__:linear-beyond",
+                                 "why": bad[0] + "-answered", "expected": None, "detail": json.dumps(rep[bad[0]])[:200],
+                                 "trace_index": len(traces), "event": len(cur["ev"])})
+                continue
             if expected:
                 E = read_expect(A, ev)
                 bad = [w for w in ("dense", "sparse") if rep[w]["st"] != "ok" or not same_value(rep[w]["val"], E)]
